@@ -144,9 +144,8 @@ def main():
                     ck.report("C16.loss.lstsq_svd.non-finite-gradient",
                               f"{cfgs}: the gradient of the time-series loss w.r.t. {c['param']} is NaN; finite and correct with solve_triu instead of the "
                               "SVD-based least squares (repeated singular values of the innovation factor)", {"case": jc, "jvp": jv, "rev": rv})
-                    # continue the comparison with the repaired derivatives (the qr_r rule may still make them differ from the directional one)
-                    jv, rv = list(tres[i]["jvp"]["loss"]), list(tres[i]["rev"]["loss"])
-                    bad = []
+                    # (the shipped code returns NaN here: there is no shipped derivative left to compare with the directional one)
+                    continue
                 elif i in nres and "error" not in nres[i] and all(math.isfinite(x) for x in nres[i]["jvp"][qn] + nres[i]["rev"][qn]):
                     ck.report("C16.vector_norm-at-zero.non-finite",
                               f"{cfgs}: the derivative of {qn} w.r.t. {c['param']} is NaN; finite when backend.linalg.vector_norm is replaced by a norm "
